@@ -169,7 +169,11 @@ func (f File) Validate() error {
 			allOpCodes[msg.OpCode] = msg.Name
 		}
 	}
+	branchTypes := map[string]struct{}{}
 	for _, un := range f.Unions {
+		if _, ok := branchTypes[un.Name]; ok {
+			return fmt.Errorf("union %s has the name of another union's branch", un.Name)
+		}
 		if _, ok := primitiveTypes[un.Name]; ok {
 			return fmt.Errorf("union shares primitive type name %s", un.Name)
 		}
@@ -187,6 +191,16 @@ func (f File) Validate() error {
 				return fmt.Errorf("union %s has duplicate field name %s", un.Name, fd.name())
 			}
 			unionNames[fd.name()] = struct{}{}
+			// inline branch definitions become package-level Go types
+			if _, ok := customTypes[fd.name()]; ok {
+				return fmt.Errorf("union %s branch %s has the name of another definition", un.Name, fd.name())
+			}
+			if _, ok := branchTypes[fd.name()]; ok {
+				return fmt.Errorf("union %s branch %s has the name of another union's branch", un.Name, fd.name())
+			}
+		}
+		for name := range unionNames {
+			branchTypes[name] = struct{}{}
 		}
 		if un.OpCode != 0 {
 			if conflict, ok := allOpCodes[un.OpCode]; ok {
